@@ -408,7 +408,11 @@ def _ec_histories_against_the_standard(rng, tier, rpt):
 #    reference below.
 _NOEC_TAG = b"verif-c13-noec"
 _NOEC_PASSES = ["TestingOneTwoThree", "\u03d2\u0301\x00\U00010400\U0001f4a9", "pass phrase \U0001f642", ""]
-NOEC_PADLIKE = []      # filled below: (counter, which block, shape)
+NOEC_PADLIKE = [  # (counter, which block, shape) of 96 hits of an off-line sweep over counters 0..5999
+    (20, 1, 'pkcs7-1'), (79, 1, 'pkcs7-1'), (424, 1, 'pkcs7-1'), (698, 1, 'pkcs7-1'), (1885, 1, 'pkcs7-1'), (2475, 1, 'pkcs7-1'), (259, 2, 'pkcs7-1'),
+    (1068, 2, 'pkcs7-1'), (1656, 2, 'pkcs7-1'), (1854, 2, 'pkcs7-1'), (2370, 2, 'pkcs7-1'), (2941, 2, 'pkcs7-1'), (481, 1, 'iso7816-1'), (720, 1, 'iso7816-1'),
+    (923, 1, 'iso7816-1'), (35, 2, 'iso7816-1'), (340, 2, 'iso7816-1'), (1258, 2, 'iso7816-1'), (4962, 2, 'x923-2'),
+]
 _PADLIKE_ITEMS = {}    # tier -> items chosen by gen() of this run, so that relations() looks at the same ones
 
 
@@ -481,8 +485,10 @@ def padlike_items(rng, tier):
     items = []
     pins = list(NOEC_PADLIKE)
     if tier == "quick":
-        first = [p for p in pins if p[1] == 1]
-        second = [p for p in pins if p[1] == 2]
+        # one PKCS#7-shaped tail (the padding scheme of the library's own AES wrapper in its padding mode) in one block, any shape in the other
+        blk = 1 + rng.randrange(2)
+        first = [p for p in pins if p[1] == blk and p[2].startswith("pkcs7")]
+        second = [p for p in pins if p[1] == 3 - blk]
         pins = [first[rng.randrange(len(first))], second[rng.randrange(len(second))]]
     for counter, blk, shape in pins:
         key, compressed, p = _noec_pinned(counter)
@@ -504,6 +510,8 @@ def padlike_items(rng, tier):
             seedb = head[:10] + ctr.to_bytes(4, "big") + head[10:]
             enc, b1, b2 = _ref_ec_generate(code, seedb, compressed)
             tails = _padlike_tails((b1, b2)[want_block - 1])
+            # the two common shapes in turn (the quick tier's single search asks for the PKCS#7 one)
+            tails = [t for t in tails if t.startswith(("pkcs7", "iso7816")[j % 2])]
             if tails:
                 items.append(("ec", code, seedb, compressed, p, enc, "block %d = %s (%s)" % (want_block, (b1, b2)[want_block - 1].hex(), tails[0]), ent, with_lot))
                 break
